@@ -194,6 +194,15 @@ def classes():
         def can_end(self):
             return self.sub is not None and not self.done and not self.cancelled and self.end_mode != 'none'
 
+        def fail(self):
+            """on_error now, whatever the scripted ending was."""
+            if self.sub is None or self.done or self.cancelled:
+                return False
+            self.done = True
+            self.ev('hand_end', how='error')
+            self.sub.on_error(AppError('source %d failed' % self.uid))
+            return True
+
         def end(self):
             """Terminal signal now (elements not yet emitted are never emitted)."""
             if not self.can_end():
